@@ -38,6 +38,7 @@ def Instr.beq : Instr → Instr → Bool
   | .flowAttr p i f, .flowAttr p' i' f' => p == p' && i == i' && decide (f = f')
   | .attrAssign p, .attrAssign p' => p == p'
   | .globalDecl a, .globalDecl b => a == b
+  | .nonlocalDecl a, .nonlocalDecl b => a == b
   | .addReturn, .addReturn => true
   | .addImport a, .addImport b => a == b
   | .addStar a b c, .addStar a' b' c' => a == a' && b == b' && c == c'
